@@ -94,7 +94,11 @@ def protocol(rep, tier, scratch):
 
 def run_rows(sc, parallel):
     from vv import probes
-    rec = probes.reset(sc.get('t0', 0))
+    prec = sc.get('precision')
+    t0 = sc.get('t0', 0)
+    if prec is not None:
+        t0 = round(t0 * 10.0 ** -prec, prec)
+    rec = probes.reset(t0)
     sc2 = json.loads(json.dumps(sc))
     for pid in parallel:
         sc2['procs'][pid]['silent'] = True
@@ -104,6 +108,8 @@ def run_rows(sc, parallel):
         err = None
         try:
             for iv, force in sc2['calls']:
+                if prec is not None:
+                    iv = round(iv * 10.0 ** -prec, prec)
                 if force:
                     eng.update(iv)
                 else:
